@@ -548,6 +548,31 @@ func genC03(o *Out, rng *rand.Rand, tier string) {
 		}
 		trySmall(in, "small-entry-points")
 	}
+	// frames for the bound port whose IP header carries options, one kind at a time: every option type octet followed by every
+	// small length octet (0 and 1 are not lengths an option can have), alone, after padding, and running past the header
+	for _, t := range []int{0, 1, 7, 68, 130, 131, 136, 137, 148, 0x94, 0x44, 255} {
+		for _, l := range []int{0, 1, 2, 3, 4, 8, 40, 255} {
+			for _, lead := range []int{0, 1, 3} {
+				fs := randFrameSpec(rng, 68, nil)
+				fs.version, fs.ihl, fs.proto, fs.dport = 4, 6+(t+l+lead)%10, 17, 68
+				f := fs.build(rng)
+				hl := fs.ihl * 4
+				if len(f) < hl {
+					continue
+				}
+				for i := 20; i < hl; i++ {
+					f[i] = 1
+				}
+				if 20+lead+1 < hl {
+					f[20+lead], f[20+lead+1] = byte(t), byte(l)
+				}
+				f[10], f[11] = 0, 0
+				c := ^sum16(f[:hl])
+				f[10], f[11] = byte(c>>8), byte(c)
+				trySmall(f, "frames-with-ip-options")
+			}
+		}
+	}
 	// (ii'') concurrent use: several goroutines decode the same datagrams - each its own copy, into its own value - and
 	// apply every read-only operation to their values at the same time (a server's goroutine-per-packet handlers do
 	// exactly that). Run in a child process: the runtime's "concurrent map writes" is fatal, not a panic.
